@@ -196,10 +196,17 @@ def run(ctx):
             ctx.fail("other-valid-encoding-misparsed", f"parsed {a[:100]} expected {want[:100]}", {"alt": d})
     ctx.extra["alternative_encodings"] = len(alt)
     # stand-alone wrappers
+    import random
     for _ in range(ctx.n(100, 1000)):
-        r = core.call_impl(lambda _: wrapper_case(rng), None)
+        sd = rng.getrandbits(48)
+        r = core.call_impl(lambda _: wrapper_case(random.Random(sd)), None)
         if r != "ok":
-            ctx.fail("wrapper:" + r.split(":")[0], r, {"wrapper": r})
+            ctx.fail("wrapper:" + r.split(":")[0], r, {"wrapper": r, "fn": "wrapper_case", "seed": sd})
+    for _ in range(ctx.n(150, 1500)):
+        sd = rng.getrandbits(48)
+        r = core.call_impl(lambda _: nft_case(random.Random(sd)), None)
+        if r != "ok":
+            ctx.fail("wrapper:" + r.split("(")[0].split(":")[0], r, {"wrapper": r, "fn": "nft_case", "seed": sd})
 
 
 def cells_text(dag, i):
@@ -300,8 +307,99 @@ def wrapper_case(rng):
     return "ok" if ok else "w4: WalletV4Data round trip"
 
 
+def _addr_bits(a):
+    """independent TL-B encoding of MsgAddress: None -> addr_none$00, (wc, hash) -> addr_std$10 nothing$0 wc:int8 addr:bits256"""
+    if a is None:
+        return "00"
+    wc, h = a
+    return "100" + format(wc & 0xFF, "08b") + "".join(format(x, "08b") for x in h)
+
+
+def _coins_bits(v):
+    n = (v.bit_length() + 7) // 8
+    return format(n, "04b") + (format(v, f"0{8 * n}b") if n else "")
+
+
+def nft_case(rng):
+    """NFT-data wrappers: bits are the TL-B encoding written out by hand; the parser returns the same fields"""
+    from pytoniq_core.boc.address import Address
+    from pytoniq_core.boc.cell import Cell
+    from pytoniq_core.boc.builder import Builder
+    from pytoniq_core.tlb.custom.nft import NftItemData, NftItemSaleFees, NftItemSaleData
+
+    def rnd_addr(allow_none=True):
+        if allow_none and rng.random() < 0.2:
+            return None
+        return (rng.choice([0, -1, 127, -128, 5]), rng.randbytes(32))
+
+    def mk(a, as_str):
+        if a is None:
+            return None
+        ad = Address(a)
+        return ad.to_str(is_user_friendly=rng.random() < 0.5) if as_str else ad
+
+    def same(x, a):
+        return (x is None) == (a is None) and (a is None or (x.wc, x.hash_part) == a)
+    k = rng.choice(["item", "fees", "sale"])
+    if k == "item":
+        ca, oa = rnd_addr(), rnd_addr()
+        idx = rng.choice([0, 1, 2 ** 63, 2 ** 64 - 1, rng.getrandbits(64)])
+        content = Builder().store_uint(rng.getrandbits(16), 16).end_cell()
+        how = rng.choice(["obj", "obj", "str-collection", "str-owner", "str-both"])
+        try:
+            it = NftItemData(idx, mk(ca, how in ("str-collection", "str-both")), mk(oa, how in ("str-owner", "str-both")), content)
+            c = it.serialize()
+        except Exception as e:
+            return f"nft-item({how}): cannot be built/serialised: {type(e).__name__}: {e}"
+        want = format(idx, "064b") + _addr_bits(ca) + _addr_bits(oa)
+        if c.bits.to01() != want or len(c.refs) != 1 or c.refs[0].hash != content.hash:
+            return f"nft-item({how}): cell is not index:uint64 collection_address owner_address content:^Cell"
+        s = c.begin_parse()
+        b = NftItemData.deserialize(s)
+        if not (b.index == idx and same(b.collection_address, ca) and same(b.owner_address, oa) and b.content.hash == content.hash
+                and len(s.bits) == 0 and s.remaining_refs == 0):
+            return f"nft-item({how}): round trip differs"
+        return "ok"
+    ma, ra = rnd_addr(), rnd_addr()
+    mf, rf = rng.choice([0, 1, 255, 256, rng.getrandbits(100), 2 ** 120 - 1]), rng.choice([0, rng.getrandbits(40)])
+    fees = NftItemSaleFees(mk(ma, False), mf, mk(ra, False), rf)
+    fwant = _addr_bits(ma) + _coins_bits(mf) + _addr_bits(ra) + _coins_bits(rf)
+    if k == "fees":
+        c = fees.serialize()
+        if c.bits.to01() != fwant or c.refs:
+            return "nft-fees: cell is not marketplace_fee_address marketplace_fee:Grams royalty_address royalty_amount:Grams"
+        s = c.begin_parse()
+        b = NftItemSaleFees.deserialize(s)
+        ok = same(b.marketplace_fee_address, ma) and b.marketplace_fee == mf and same(b.royalty_address, ra) and b.royalty_amount == rf \
+            and len(s.bits) == 0
+        return "ok" if ok else "nft-fees: round trip differs"
+    a1, a2, a3 = rnd_addr(), rnd_addr(), rnd_addr()
+    comp, ext = rng.random() < 0.5, rng.random() < 0.5
+    at, price = rng.choice([0, 2 ** 32 - 1, rng.getrandbits(32)]), rng.choice([0, rng.getrandbits(64), 2 ** 120 - 1])
+    how = rng.choice(["obj", "str"])
+    try:
+        sd = NftItemSaleData(comp, at, mk(a1, how == "str"), mk(a2, how == "str"), mk(a3, how == "str"), price, fees, ext)
+        c = sd.serialize()
+    except Exception as e:
+        return f"nft-sale({how}): cannot be built/serialised: {type(e).__name__}: {e}"
+    want = "01"[comp] + format(at, "032b") + _addr_bits(a1) + _addr_bits(a2) + _addr_bits(a3) + _coins_bits(price) + "01"[ext]
+    if c.bits.to01() != want or len(c.refs) != 1 or c.refs[0].bits.to01() != fwant:
+        return f"nft-sale({how}): cell is not the nft_item_sale_data layout"
+    s = c.begin_parse()
+    b = NftItemSaleData.deserialize(s)
+    ok = (b.is_complete, b.created_at, b.full_price, b.can_deploy_by_external) == (comp, at, price, ext) \
+        and same(b.marketplace_address, a1) and same(b.nft_address, a2) and same(b.nft_owner_address, a3) \
+        and same(b.fees_cell.marketplace_fee_address, ma) and b.fees_cell.marketplace_fee == mf \
+        and same(b.fees_cell.royalty_address, ra) and b.fees_cell.royalty_amount == rf and len(s.bits) == 0 and s.remaining_refs == 0
+    return "ok" if ok else f"nft-sale({how}): round trip differs"
+
+
 def replay(ctx, obj):
     c = obj["case"]
+    if "wrapper" in c and "seed" in c:
+        import random
+        r = core.call_impl(lambda _: {"wrapper_case": wrapper_case, "nft_case": nft_case}[c["fn"]](random.Random(c["seed"])), None)
+        return None if r == "ok" else r
     if "wrapper" in c or "alt" in c:
         return "randomised sub-check: re-run the check with the same seed"
     dag = [(t, b, list(r)) for t, b, r in c["dag"]]
